@@ -109,6 +109,23 @@ func skipEntry(r *hx.Rng) string {
 
 func gen(r *hx.Rng, n int, tier string) []string {
 	var ops []string
+	// multi-step histories, the real message loop and GJKR keys (see seq.go)
+	nSeq, nEntry, nGjkr := n/12+2, 3, 2
+	if tier == "thorough" {
+		nEntry, nGjkr = 25, 12
+	}
+	for i := 0; i < nSeq; i++ {
+		ops = append(ops, genSeq(r, "recseq"), genSeq(r, "shareseq"))
+		if i%2 == 0 {
+			ops = append(ops, genSeq(r, "pkseq"))
+		}
+	}
+	for i := 0; i < nEntry; i++ {
+		ops = append(ops, genSeq(r, "entry"))
+	}
+	for i := 0; i < nGjkr; i++ {
+		ops = append(ops, genSeq(r, "gjkr"))
+	}
 	for i := 0; i < n; i++ {
 		switch k := r.Intn(20); {
 		case k < 10: // recover signature
@@ -317,6 +334,8 @@ func exec(op string) (string, string) {
 		return "bad-op", "bad"
 	}
 	switch f[0] {
+	case "recseq", "pkseq", "shareseq", "entry", "gjkr":
+		return execSeq(f)
 	case "rec":
 		if len(f) != 5 {
 			return "bad-op", "bad"
